@@ -608,6 +608,7 @@ def _div_terms(a, b):
     # Python: a == b*q + r, 0 <= r < b (b>0) or b < r <= 0 (b<0)
     c.assume_raw(za == zb * q + r)
     c.assume_raw(z3.If(zb > 0, z3.And(r >= 0, r < zb), z3.And(r <= 0, r > zb)))
+    c.__dict__.setdefault('qr_defs', []).append((q, r, za, zb, 'signed'))
     c.divcache[key] = (q, r)
     return q, r
 
@@ -724,7 +725,11 @@ class SRange:
     def is_concrete(self):
         return not (is_sym(self.start) or is_sym(self.stop) or is_sym(self.step))
 
+    known_len = None        # set by a contract that constructs range(a, a + (n-1)*s + 1, s): n elements (LEMMA-RANGE-LEN)
+
     def length(self):
+        if self.known_len is not None:
+            return self.known_len
         if self.is_concrete():
             return len(range(self.start, self.stop, self.step))
         if isinstance(self.step, int) and self.step == 1:
